@@ -224,7 +224,9 @@ func jsTemplateChars(r *rand.Rand) string {
 }
 
 var jsRegexpAlpha = []string{"a", "b+", ".", "\\/", "\\\\", "\\[", "\\]", "[/]", "[a-z/]", "[\\]/]", "[^/\\]]", "[[]", "[/[/]", "[\\\\]", "(", ")", "(?<n>x)", "{1,2}", "|", "^", "$", "*", "?", "+", "=",
-	"é", "😀", " ", "\t", "`", "${", "}", "{", "'", "\"", "]", "\\d", "\\é", "\x00", "\\\x00", "*", "<!--", "-->", "#", ",", ";"}
+	"é", "😀", " ", "\t", "`", "${", "}", "{", "'", "\"", "]", "\\d", "\\é", "\x00", "\\\x00", "*", "<!--", "-->", "#", ",", ";",
+	// neighbours of the line terminators U+2028/U+2029 (same first two UTF-8 bytes): ordinary characters of a body
+	"\u2027", "\u202a", "\u202f", "\u2030", "\u2038", "\u203c", "[\u2039\u203a]", "\\\u202e", "\u203f"}
 
 // JSRegExp returns a well-formed regular expression literal: body with classes containing '/', escaped '/', an
 // optional leading '=' (so that the literal starts with the '/=' token), flags of IdentifierPart characters.
@@ -374,7 +376,9 @@ func (g *jsTokGen) emit(k, text string, glued bool) {
 	was := g.lineInitial
 	g.decrInitial = false
 	switch {
-	case k == "LineTerminator" || jsHasLT(text):
+	case k == "LineTerminator" || jsHasLT(text) && k != "String" && !strings.HasPrefix(k, "Template"):
+		// a line continuation inside a string or a raw line break inside a template does not start a line for this
+		// purpose: the literal itself is a token on that line ('a\<LF>b'-->c is String -- > c)
 		g.lineInitial = true
 	case k == "Whitespace" || k == "Comment":
 	default:
@@ -470,7 +474,7 @@ func (g *jsTokGen) token(frame *[]byte) {
 		g.add("Punct", Pick(r, []string{"/", "/=", "?.", "?", ".", "...", "--", ">", "<", "!", "-"}))
 	case x < 34:
 		// neighbourhoods the property names, drawn on purpose (every add still goes through the predicate)
-		switch r.Intn(6) {
+		switch r.Intn(7) {
 		case 0: // "<!-" is not the start of an HTML-like comment
 			g.add("Punct", "<")
 			g.add("Punct", "!")
@@ -497,6 +501,17 @@ func (g *jsTokGen) token(frame *[]byte) {
 		case 4:
 			g.add(JSNumber(r))
 			g.add("PrivateIdentifier", "#"+JSIdentifier(r))
+		case 5: // a literal that contains a line break is a token of its line: "--" ">" behind it is not an HTML-like comment
+			if r.Intn(2) == 0 {
+				g.add("String", Pick(r, []string{"'a\\\nb'", "\"\\\r\n\"", "'\\\u2028'", "\"x\\\ry\""}))
+			} else {
+				g.add("Template", "`a\nb`")
+			}
+			if r.Intn(2) == 0 {
+				g.add("Whitespace", Pick(r, jsWhitespace))
+			}
+			g.add("Punct", "--")
+			g.add("Punct", Pick(r, []string{">", ">=", ">>"}))
 		default:
 			g.add("Punct", Pick(r, []string{">>>", ">>", ">", "**", "&&", "||", "??", "<<", "=", "!", "=="}))
 			g.add("Punct", Pick(r, []string{"=", "==", "=>", ">", ">=", "?.", "."}))
